@@ -22,6 +22,7 @@ ANY = [GENERICS, ["AnyElement"]]
 DERIVED = [GENERICS, ["DerivedElement"]]
 
 HEADER = '''from __future__ import annotations
+import datetime
 from dataclasses import dataclass, field
 from decimal import Decimal
 from enum import Enum
@@ -88,6 +89,8 @@ def py_src(r):
     if t == "xml":
         args = list(r["args"]) + ([] if r["off"] is None else [r["off"]])
         return {"date": "XmlDate", "time": "XmlTime", "datetime": "XmlDateTime"}[r["k"]] + "(" + ", ".join(args) + ")"
+    if t == "std":
+        return "datetime." + r["k"] + "(" + ", ".join(r["args"]) + ")"
     if t == "dur":
         return "XmlDuration(%r)" % "".join(chr(c) for c in r["v"])
     if t == "period":
@@ -187,7 +190,16 @@ PERIODS = ["--12", "2020Z", "---05", "--02-29", "2001-10+02:00", "1999"]
 
 def g_scalar(r, kind=None):
     kind = kind or r.choice(["none", "bool", "int", "float", "str", "bytes", "hex", "b64", "dec", "qname", "date", "time",
-                             "datetime", "dur", "period"])
+                             "datetime", "dur", "period"] * 3 + ["pydate", "pytime", "pydatetime"])
+    if kind == "pydate":
+        return {"t": "std", "k": "date", "args": [str(r.randint(1, 9999)), str(r.randint(1, 12)), str(r.randint(1, 28))]}
+    if kind == "pytime":
+        return {"t": "std", "k": "time", "args": [str(r.randint(0, 23)), str(r.randint(0, 59)), str(r.choice([0, 0, 30])),
+                                                    str(r.choice([0, 0, 0, 250000]))]}
+    if kind == "pydatetime":
+        return {"t": "std", "k": "datetime",
+                "args": [str(r.randint(1, 9999)), str(r.randint(1, 12)), str(r.randint(1, 28)), str(r.randint(0, 23)),
+                         str(r.randint(0, 59)), str(r.choice([0, 0, 30])), str(r.choice([0, 0, 0, 250000]))]}
     if kind == "none":
         return NONE
     if kind == "bool":
@@ -221,10 +233,12 @@ def g_scalar(r, kind=None):
 NAMES = ["Root", "Item", "Address", "Order", "Node", "Leaf", "Meta", "Entry", "Choice", "Config", "Part", "Unit"]
 ENAMES = ["Color", "Kind", "Status", "Mode", "Level"]
 MEMBERS = ["A", "B", "RED", "VALUE_1", "none", "X_Y"]
-PRIM_KINDS = ["int", "float", "str", "bool", "dec", "qname", "bytes", "hex", "date", "time", "datetime", "dur", "period"]
+PRIM_KINDS = ["int", "float", "str", "bool", "dec", "qname", "bytes", "hex", "date", "time", "datetime", "dur", "period"] * 4 \
+    + ["pydate", "pytime", "pydatetime"]
 ANNOT = {"int": "int", "float": "float", "str": "str", "bool": "bool", "dec": "Decimal", "qname": "QName", "bytes": "bytes",
          "hex": "XmlHexBinary", "b64": "XmlBase64Binary", "date": "XmlDate", "time": "XmlTime", "datetime": "XmlDateTime",
-         "dur": "XmlDuration", "period": "XmlPeriod"}
+         "dur": "XmlDuration", "period": "XmlPeriod", "pydate": "datetime.date", "pytime": "datetime.time",
+         "pydatetime": "datetime.datetime"}
 
 
 def equal_variants(r, d):
@@ -593,6 +607,9 @@ def cvalue(v):
     if t == "xml":
         k = dict(date="KDate", time="KTime", datetime="KDateTime")[v["k"]]
         return f"(VXml {k} {clist(v['args'], cnum, 'Z')} {copt(v['off'], cnum)})"
+    if t == "std":
+        k = dict(date="SDate", time="STime", datetime="SDateTime")[v["k"]]
+        return f"(VStd {k} {clist(v['args'], cnum, 'Z')})"
     if t == "dur":
         return f"(VDuration {ccps(v['v'])})"
     if t == "period":
@@ -724,6 +741,7 @@ class X:
         ("qname-quote", {"t": "obj", "c": O, "kw": [["any", Q('a"b')]]}),
         ("duration-newline", {"t": "obj", "c": O, "kw": [["any", {"t": "dur", "v": [ord(c) for c in "P1Y\n"]}]]}),
         ("init-false", {"t": "obj", "c": O, "kw": [], "set": [["fx", S("changed")]]}),
+        ("stdlib-date", {"t": "obj", "c": O, "kw": [["any", {"t": "std", "k": "date", "args": ["2020", "1", "2"]}]]}),
         ("ok-nontrivial", {"t": "obj", "c": O, "kw": [
             ["a", I(1)], ["inner", {"t": "obj", "c": [m1, ["Outer", "Inner"]], "kw": [["v", F(float("nan"))]]}],
             ["e", {"t": "enum", "c": [m1, ["Color"]], "m": "RED"}],
@@ -743,7 +761,8 @@ CLASSES = [("class_array", "array-rendered-as-list"),
            ("class_imports", "import-name-collision"),
            ("class_raw_qname", "qname-text-unescaped"),
            ("class_raw_xml", "duration-text-unescaped"),
-           ("class_init", "init-false-field-not-default")]
+           ("class_init", "init-false-field-not-default"),
+           ("class_std", "stdlib-datetime-unqualified")]
 
 
 def run(ck: Check):
